@@ -8,7 +8,7 @@
    `members a` the tiles of the meta tile of a.  `s_log` is the upstream log, newest first. *)
 From Coq Require Import ZArith List Bool.
 Import ListNotations.
-From MP Require Import Base Expiry Expiry_proofs.
+From MP Require Import Base Expiry Expiry_proofs Gen_expiry Expiry_gen_proofs.
 Local Open Scope Z_scope.
 
 (* The staleness decision of TileManager.is_cached, for every rule kind: a tile is accepted iff it exists and
@@ -234,3 +234,34 @@ Proof. exact cache_managers_threshold. Qed.
 
 Theorem one_manager_per_grid : forall rb fs grids, length (cache_managers rb fs grids) = length grids.
 Proof. exact cache_managers_length. Qed.
+
+(* Tie to the source.  gen_tm_is_cached, gen_tm_is_stale and gen_expire_timestamp are regenerated on every run from
+   the bodies of TileManager.is_cached, is_stale and expire_timestamp (translator/specs/expiry.py -> gen/Gen_expiry.v,
+   statement by statement, fail closed).  The model the theorems above speak about IS these kernels, applied to the
+   back-end look-up, the threshold and int(tile.timestamp): an edit of one of the three methods that changes a decision
+   (a comparison, a guard, the order of the tests, the precedence of refresh_before) breaks these three theorems. *)
+Theorem is_cached_model_is_generated_from_source : forall Q m ev c a,
+  tm_is_cached Q m ev c a =
+  match expire_timestamp Q m ev with
+  | ThrErr => None
+  | th => Some (gen_tm_is_cached (Some a) (is_some (get c a)) (thr_opt th) (ts_int_of Q c a))
+  end.
+Proof. exact tm_is_cached_as_generated. Qed.
+
+Theorem is_stale_model_is_generated_from_source : forall Q m ev c a,
+  tm_is_stale Q m ev c a =
+  match get c a with
+  | Some _ => match tm_is_cached Q m ev c a with
+              | Some fresh => Some (gen_tm_is_stale true fresh)
+              | None => None
+              end
+  | None => Some (gen_tm_is_stale false false)
+  end.
+Proof. exact tm_is_stale_as_generated. Qed.
+
+Theorem expire_timestamp_model_is_generated_from_source : forall Q m ev,
+  expire_timestamp Q m ev =
+  gen_expire_timestamp (is_some (m_refresh_before m))
+    (match m_refresh_before m with Some rc => before_timestamp_from_options Q rc ev | None => ThrNone end)
+    (match m_expire m with Some t => ThrAt t | None => ThrNone end).
+Proof. exact expire_timestamp_as_generated. Qed.
